@@ -287,6 +287,10 @@ func (prop) Generate(rng *core.Rand, tier string, emit func(string)) {
 			emit(genAh(prx))
 			continue
 		}
+		if k%24 == 19 {
+			emit(genDy(prx))
+			continue
+		}
 		if k%12 == 2 {
 			if (k/12)%2 == 0 {
 				emit(genCf(prx))
